@@ -286,6 +286,12 @@ def _s3(ctx):
             if t['k'] != 'call' or 'fn' not in t:
                 continue
             nm = t.get('resolved') or t['fn']
+            if nm in F.fresh:
+                # a helper that does not exist in the reference tree stands for the reference function(s) whose code
+                # it holds (the queue-level functions that call it)
+                owners = sorted(o_ for o_ in ctx.terminal_owners(nm, lambda f_: f_ not in F.fresh) if re.match(r'^(<&?)?multiqueue::', o_))
+                if owners and len({short_fn(o_).split('::')[-1] for o_ in owners}) == 1:
+                    nm = owners[0]
             if re.match(r'^(<&?)?multiqueue::', nm) or re.match(r'^(<&?(\'a )?)?(broadcast|mpmc)::', nm):
                 inner.append(short_fn(nm).split('::')[-1] if not re.match(r'^(<&?(\'a )?)?(broadcast|mpmc)::', nm) else 'wrapper:' + short_fn(nm).split('::')[-1])
             elif re.search(r'atomic::|(^|::)ptr::|mem::|alloc::|read_cursor::|memory::|countedindex::', nm):
